@@ -396,6 +396,9 @@ fn run_once_inner<T: Sc, F: Factory<T>>(sc: &Scenario, rep: &mut RunReport, samp
     if let Some(p) = &r.build_panic {
         rep.violate(sc, "PANIC", &format!("build@{}", panic_site(p)), p.clone());
     }
+    if sc.faults.is_empty() {
+        expect_built(sc, rep, &r.build, r.build_panic.is_some(), "");
+    }
     let mut poisoned = false;
     let mut fault_seen_before = false;
     let check_present = |rep: &mut RunReport, s: &Snap, site: &str, recovered: bool, world: &World<T>| {
